@@ -691,6 +691,28 @@ func c16WalkTransform(c *fw.Ctx, rng *fw.RNG) {
 	}
 	c.Count("walk_transform_replacements", int64(len(replacedPaths)))
 	before := obs.ReadOut(rootNode, obs.Options{Light: true}).Val
+	// a callback that fails at its k-th call: the walk must end with that error, not with a tree built around nothing
+	if len(replacedPaths) > 0 && rng.Chance(1, 8) {
+		failAt := rng.Intn(len(replacedPaths))
+		errCB := errors.New("callback says no")
+		calls := 0
+		var o2 datamodel.Node
+		var e2 error
+		if !c.Guard("C16:WalkTransforming:callback-error", func() {
+			o2, e2 = traversal.WalkTransforming(rootNode, sel, func(_ traversal.Progress, n datamodel.Node) (datamodel.Node, error) {
+				calls++
+				if calls-1 == failAt {
+					return nil, errCB
+				}
+				return basicnode.NewString("«replaced»"), nil
+			})
+		}) {
+			c.Count("callback_error_walk_transforms", 1)
+			if e2 == nil || !strings.Contains(e2.Error(), errCB.Error()) {
+				c.Deviate("C16:callback-error-lost:WalkTransforming", fmt.Sprintf("the transform callback failed at its call #%d; WalkTransforming returned node nil=%v, err=%v\nselector %s\ntree %s", failAt, o2 == nil, e2, s.String(), clipS(root.Dump(), 300)))
+			}
+		}
+	}
 	var visitedBelow string
 	if c.Guard("C16:WalkTransforming", func() {
 		var done [][]string
